@@ -331,11 +331,15 @@ func genC17(r *rand.Rand, tier string) []Case {
 type c17Any struct {
 	API   *c17Case `json:"api,omitempty"`
 	Crash *c02Case `json:"crash,omitempty"`
+	Life  *c17Life `json:"life,omitempty"`
 }
 
 func (c *c17Any) inner() Case {
 	if c.API != nil {
 		return c.API
+	}
+	if c.Life != nil {
+		return c.Life
 	}
 	return c.Crash
 }
@@ -352,7 +356,7 @@ func (c *c17Any) Kind() string {
 	if c.Crash != nil {
 		return "crash/" + c.Crash.Kind()
 	}
-	return c.API.Kind()
+	return c.inner().Kind()
 }
 func (c *c17Any) Evals() int {
 	if c.Crash != nil {
@@ -410,10 +414,13 @@ func init() {
 				out = append(out, &c17Any{Crash: genC17Crash(r)})
 			}
 			out = append(out, &c17Any{Crash: genDeleteTailCrashCase(r, true)})
+			for _, c := range genC17Life(r, tier) {
+				out = append(out, &c17Any{Life: c.(*c17Life)})
+			}
 			return out
 		},
 		New:  func() Case { return &c17Any{} },
-		Rule: "also sessions with bursts of rotations that do not wait for the flusher, and crash sessions whose last log generation holds only deletes (each second kill image is recovered, killed idle and opened again); programs mixing accepted and rejected calls through both API flavours: keys/values nil, empty, non-UTF-8, 64 KiB and longer, marker bytes, the empty key; observed directly, after forced rotation+flush, after clean reopen; plus sessions with rejected calls run under strace whose every kill image is re-opened (C02 machinery). Non-trivial: >=1 rejected and >=2 accepted puts.",
+		Rule: "call sequences over the life cycle of ONE handle (calls before Open, a second Open, calls after Close: refused, and without effect), compared with Db/Handle.v; also sessions with bursts of rotations that do not wait for the flusher, and crash sessions whose last log generation holds only deletes (each second kill image is recovered, killed idle and opened again); programs mixing accepted and rejected calls through both API flavours: keys/values nil, empty, non-UTF-8, 64 KiB and longer, marker bytes, the empty key; observed directly, after forced rotation+flush, after clean reopen; plus sessions with rejected calls run under strace whose every kill image is re-opened (C02 machinery). Non-trivial: >=1 rejected and >=2 accepted puts.",
 		Shrink: func(cs Case) []Case {
 			a := cs.(*c17Any)
 			if a.API == nil {
